@@ -150,6 +150,7 @@ impl Dir {
 struct LinkState {
   ab: Dir,
   ba: Dir,
+  pumps: Vec<tokio::task::AbortHandle>,
 }
 
 /// Bidirectional pump. `a` and `b` are the link's own ends; the sockets under test hold the peers
@@ -169,14 +170,23 @@ pub enum Way {
 impl Link {
   /// Spawns the two pump tasks on the current runtime.
   pub fn spawn(a: DuplexStream, b: DuplexStream) -> Link {
-    let st = Arc::new(parking_lot::Mutex::new(LinkState { ab: Dir::new(), ba: Dir::new() }));
+    let st = Arc::new(parking_lot::Mutex::new(LinkState { ab: Dir::new(), ba: Dir::new(), pumps: vec![] }));
     let wake = Arc::new(tokio::sync::Notify::new());
     let (ar, aw) = tokio::io::split(a);
     let (br, bw) = tokio::io::split(b);
     let l = Link { st, wake };
-    tokio::spawn(pump(l.clone(), Way::AtoB, ar, bw));
-    tokio::spawn(pump(l.clone(), Way::BtoA, br, aw));
+    let h1 = tokio::spawn(pump(l.clone(), Way::AtoB, ar, bw)).abort_handle();
+    let h2 = tokio::spawn(pump(l.clone(), Way::BtoA, br, aw)).abort_handle();
+    l.st.lock().pumps = vec![h1, h2];
     l
+  }
+
+  /// Ends the two pump tasks (the stream ends they own are dropped: both peers see EOF). Used before
+  /// counting the tasks that are still alive in a world, so the harness's own tasks are not counted.
+  pub fn destroy(&self) {
+    for h in self.st.lock().pumps.drain(..) {
+      h.abort();
+    }
   }
 
   fn with<R>(&self, w: Way, f: impl FnOnce(&mut Dir) -> R) -> R {
